@@ -1,0 +1,85 @@
+package markdown
+
+import (
+	mathjax "github.com/litao91/goldmark-mathjax"
+	"github.com/yuin/goldmark"
+	"github.com/yuin/goldmark/ast"
+	"github.com/yuin/goldmark/parser"
+	"github.com/yuin/goldmark/text"
+	"github.com/yuin/goldmark/util"
+)
+
+// mathBlockParser 解析 $$...$$ 块级公式，产生与 goldmark-mathjax 相同的 MathBlock 节点。
+//
+// goldmark-mathjax 自带的块解析器把当前公式块的缩进存放在解析上下文的同一个键下，并在关闭一个块时清空它。
+// goldmark 在打开下一个块之后才关闭上一个块，所以两个公式块紧挨着（"$$\na\n$$\n$$\nb"）时，
+// 后一个块的数据被前一个块的关闭动作清掉，解析器随即 panic。这里把缩进按节点保存，互不影响。
+type mathBlockParser struct{}
+
+// mathBlockIndents 是解析上下文里保存各公式块缩进的键（节点 -> 缩进）
+var mathBlockIndents = parser.NewContextKey()
+
+// safeMathBlocks 是一个 goldmark 扩展：以高于 goldmark-mathjax 的优先级注册上面的块解析器
+type safeMathBlocks struct{}
+
+func (safeMathBlocks) Extend(m goldmark.Markdown) {
+	m.Parser().AddOptions(parser.WithBlockParsers(
+		util.Prioritized(&mathBlockParser{}, 700), // goldmark-mathjax 的块解析器是 701
+	))
+}
+
+func mathBlockIndentsOf(pc parser.Context) map[ast.Node]int {
+	indents, _ := pc.Get(mathBlockIndents).(map[ast.Node]int)
+	if indents == nil {
+		indents = make(map[ast.Node]int)
+		pc.Set(mathBlockIndents, indents)
+	}
+	return indents
+}
+
+func (b *mathBlockParser) Open(parent ast.Node, reader text.Reader, pc parser.Context) (ast.Node, parser.State) {
+	line, _ := reader.PeekLine()
+	pos := pc.BlockOffset()
+	if pos == -1 || pos >= len(line) || line[pos] != '$' {
+		return nil, parser.NoChildren
+	}
+	i := pos
+	for ; i < len(line) && line[i] == '$'; i++ {
+	}
+	if i-pos < 2 {
+		return nil, parser.NoChildren
+	}
+	node := mathjax.NewMathBlock()
+	mathBlockIndentsOf(pc)[node] = pos
+	return node, parser.NoChildren
+}
+
+func (b *mathBlockParser) Continue(node ast.Node, reader text.Reader, pc parser.Context) parser.State {
+	line, segment := reader.PeekLine()
+	w, pos := util.IndentWidth(line, 0)
+	if w < 4 {
+		i := pos
+		for ; i < len(line) && line[i] == '$'; i++ {
+		}
+		if i-pos >= 2 && util.IsBlank(line[i:]) {
+			reader.Advance(segment.Stop - segment.Start - segment.Padding)
+			return parser.Close
+		}
+	}
+
+	pos, padding := util.DedentPosition(line, 0, mathBlockIndentsOf(pc)[node])
+	seg := text.NewSegmentPadding(segment.Start+pos, segment.Stop, padding)
+	node.Lines().Append(seg)
+	reader.AdvanceAndSetPadding(segment.Stop-segment.Start-pos-1, padding)
+	return parser.Continue | parser.NoChildren
+}
+
+func (b *mathBlockParser) Close(node ast.Node, reader text.Reader, pc parser.Context) {
+	delete(mathBlockIndentsOf(pc), node)
+}
+
+func (b *mathBlockParser) CanInterruptParagraph() bool { return true }
+
+func (b *mathBlockParser) CanAcceptIndentedLine() bool { return false }
+
+func (b *mathBlockParser) Trigger() []byte { return nil }
